@@ -949,6 +949,7 @@ def check(facts, rep, tier, cfg):
     check_r5(facts, rep, crate)
     check_r6_callsite_codes(facts, rep)
     check_r7_reads_on_callers_reader(facts, rep, crate)
+    check_r8_no_normalising_conversion(facts, rep, crate)
     rep.rule("C18.S7", "no new process-wide mutable state (static cell / lock / once-cell) in the files this property is anchored in")
     import whomay
     whomay.check_new_statics(facts, rep, "C18.S7", "C18")
@@ -986,6 +987,40 @@ def check_r7_reads_on_callers_reader(facts, rep, crate):
             else:
                 rep.ok(rid, key, where, "read on the reader parameter", nontrivial=False)
     rep.floor(rid, "read calls in the SOCKS readers", n, 10)
+
+
+_LOSSY = {"to_canonical", "to_ipv4", "to_ipv4_mapped", "to_ipv6_mapped", "to_ipv6_compatible", "to_lowercase", "to_uppercase",
+          "to_ascii_lowercase", "to_ascii_uppercase", "make_ascii_lowercase", "make_ascii_uppercase", "trim", "trim_end", "trim_start",
+          "trim_matches", "trim_end_matches", "trim_start_matches", "from_utf8_lossy", "to_string_lossy", "strip_prefix", "strip_suffix",
+          "swap_bytes", "reverse_bits", "to_le", "from_le", "rotate_left", "rotate_right", "dedup", "sort", "retain", "replace", "replacen",
+          "to_bits", "is_loopback"}
+
+
+def check_r8_no_normalising_conversion(facts, rep, crate):
+    """The readers return exactly the address / host bytes that were on the wire: nothing on the way from the bytes read to the value
+    returned (and from the writer's argument to the bytes written) normalises, folds or trims them."""
+    rid = "C18.R8"
+    rep.rule(rid, "the SOCKS readers and writers pass addresses, host names and ports on as they are: no normalising or folding conversion "
+                  "(to_canonical, to_ipv4_mapped, case folding, trimming, lossy UTF-8, byte swapping) is applied in penguin-socks - the value "
+                  "returned for a request is exactly what RFC 1928 / SOCKS4 assign to the bytes received")
+    n = 0
+    bad = 0
+    for b in crate.bodies:
+        if "::tests::" in b.path:
+            continue
+        for bi, t in b.calls():
+            c = callee(t)
+            if not c:
+                continue
+            n += 1
+            if c["name"] in _LOSSY and not c["path"].startswith("tracing"):
+                bad += 1
+                rep.bad(rid, "normalising-conversion/%s/%s" % (b.path.split("::{")[0], c["name"]), "%s (%s)" % (loc_str(t["loc"]), b.path),
+                        "`%s` is applied to protocol data in penguin-socks: for some addresses / names (e.g. an IPv4-mapped IPv6 address, a host "
+                        "name with capitals or trailing dot) the value handed on is not the one that was received" % c["name"])
+    if not bad:
+        rep.ok(rid, "no-normalising-conversion", "", "%d calls inspected in penguin-socks, none normalises protocol data" % n, nontrivial=False)
+    rep.floor(rid, "calls inspected in penguin-socks", n, 40)
 
 
 def check_r6_callsite_codes(facts, rep):
